@@ -1,7 +1,10 @@
 """C22 — the firewall configuration parses exactly (spec/Firewall.tla: grammar of a rule map, vector mode)."""
 from tools.props.C16 import fw_vectors
 
-RULE = ("every rule list of Firewall.tla's configuration lattice (every port/code text x protocol; one and two fields of a rule "
+RULE = ("every rule list of Firewall.tla's configuration lattice (every port/code text x protocol - among them the range over the "
+        "whole port space 1-65535, with and without blanks, its neighbours 1-65534 / 2-65535, 0-65535, ranges that touch 1 and "
+        "65535 -, each also evaluated on the port pairs of C16: ports inside, on both edges and just outside the ranges, port 0, "
+        "packets without ports, tcp/udp/icmp/another protocol; one and two fields of a rule "
         "map deviating in kind (missing/string/int/bool/null/list) or text; lists of two rules) is one TLC state with "
         "Loads(cfg) and the verdict sets of Allowed(RulesOf(cfg)); each is rendered as real YAML, loaded through config.C and "
         "NewFirewallFromConfig, and the loaded Firewall is put through the C16 packets; distinct = distinct rule lists")
@@ -31,7 +34,10 @@ def run(ctx):
     ctx.traces += n
     ctx.extra['drop_calls'] = (res.get('extra') or {}).get('drops')
     if not ctx.violations:      # a violation is a verdict; vacuity only matters for a pass
-        ctx.require_actions('universe', 'loaded', 'refused', 'undecided-loaded', 'undecided-refused', 'allow', 'deny', 'tracked')
+        ctx.require_actions('universe', 'loaded', 'refused', 'undecided-loaded', 'undecided-refused', 'allow', 'deny', 'tracked',
+                            # port texts at the top of the port space, evaluated on the port pairs (port 0, fragments, edges)
+                            'port-pairs', 'port-pairs:1-65535', 'port-pairs:1-65534', 'port-pairs:2-65535', 'port-pairs:0-65535',
+                            'port-pairs:91-65535', 'port-pairs:65535')
 
 
 META = {
